@@ -24,7 +24,6 @@ from compiler.util import ir_data_utils
 from compiler.util import ir_util
 from compiler.util import traverse_ir
 
-
 # Error messages used by multiple attribute type checkers.
 _BAD_TYPE_MESSAGE = "Attribute '{name}' must have {type} value."
 _MUST_BE_CONSTANT_MESSAGE = "Attribute '{name}' must have a constant value."
@@ -40,7 +39,7 @@ def _attribute_name_for_errors(attr):
 # Attribute type checkers
 def _is_constant_boolean(attr, module_source_file):
     """Checks if the given attr is a constant boolean."""
-    if not attr.value.expression.type.boolean.has_field("value"):
+    if not ir_data_utils.reader(attr).value.expression.type.boolean.has_field("value"):
         return [
             [
                 error.error(
@@ -57,7 +56,7 @@ def _is_constant_boolean(attr, module_source_file):
 
 def _is_boolean(attr, module_source_file):
     """Checks if the given attr is a boolean."""
-    if attr.value.expression.type.which_type != "boolean":
+    if ir_data_utils.reader(attr).value.expression.type.which_type != "boolean":
         return [
             [
                 error.error(
